@@ -48,6 +48,19 @@ CHECKS = {
  "C16": ("exploration", "CONF", "exhaustive product of shape/layout/window/step/dilation cells for sliding_window_view (valid and invalid), full 1-D and representative 2-D stride/padding/dilation products for conv_nd and max_pool, small lattices for batchnorm/softmax/gru/losses, each against element-by-element evaluation of the documented formula",
          "Every cell is executed on the real layer and compared with a naive nested-loop evaluation; acceptance is compared with the validity predicate stated in the property (valid => formula, invalid => raises), and the sliding-window view's read-only flag and byte bounds are checked.",
          "float64; gru only for dropout=0; sides <= 4-5", "3/C16"),
+
+ "C02": ("exploration", "CONF", "exhaustive product of the op catalogue (every registered ufunc x shapes x layouts x where-masks x dtype x operand kinds, reductions x axis forms x keepdims x ddof, matmul/einsum/norm, index catalogue, manipulation/joining ops, nnet calls) executed on the real library; g.J from complex-step columns of a functional NumPy model as reference",
+         "Every cell of every operation's option x shape x layout x value-domain lattice is evaluated and back-propagated with an arbitrary incoming gradient and compared element-wise with the complex-step Jacobian-vector product; documented conventions at kinks are tabulated.",
+         "operands <= 8-18 elements; tolerance 2e-9; non-holomorphic ops use hand-written complex-safe models; cells outside the differentiable domain not generated", "3/C02"),
+ "C03": ("exploration", "CONF", "exhaustive product of entry point x operand dtype (bool/int8/int32/int64/f16/f32/f64 and Python scalars) x shape x layout x keyword option, each cell executed on the real library with tracking on and off against the same NumPy call",
+         "Every cell is executed in MyGrad (tracked and untracked) and in NumPy on the underlying arrays; values (bitwise, NaN-aware), shape and dtype must agree and calls NumPy rejects must be rejected.",
+         "installed NumPy (NEP 50) is the reference; only keyword options present in the MyGrad signature are enumerated", "3/C03"),
+ "C11": ("exploration", "CONF", "exhaustive enumeration of every (operation, operand shapes, operand kinds) cell under all its spellings (function, NumPy function, method, operator, reflected, augmented, out=Tensor, out=ndarray) on the real library; differential comparison of values, dtype, constant flag and operand gradients",
+         "All spellings of every cell must agree pairwise (differential oracle, no expected values); non-differentiable NumPy functions must return plain arrays equal to NumPy's; the rounding/modulo family must refuse non-constant tensors in every spelling.",
+         "gradients compared after rounding to 12 decimals", "3/C11"),
+ "C12": ("exploration", "CONF", "exhaustive enumeration of the op/nnet catalogues and of all SSA programs <= n statements on the real library with byte snapshots of every caller-owned object and a sentinel-write aliasing probe on every stored gradient",
+         "Every op cell and every program up to the bound is executed; inputs, index objects, masks and the seed must be byte-identical afterwards, backward must not change data, and writing through any .grad must not be visible in an unrelated gradient or in any data.",
+         "the terminal's own gradient may be the caller's seed array (documented)", "3/C12"),
 }
 NA = {}
 def main():
